@@ -632,7 +632,74 @@ func (t *fnTrans) recordRecv(ct types.Type, ch Term, cond Term) {
 
 func (t *fnTrans) chanSend(in *ssa.Send) {
 	t.assumptions["channel operations are assumed to complete; only send/receive counts and the last value sent are modelled"] = true
+	t.chanInvSend(in.Chan, t.term(t.val(in.X)), "", in.Pos())
 	t.recordSend(in.Chan.Type(), t.term(t.val(in.Chan)), t.term(t.val(in.X)), "")
+}
+
+// chanFieldKey: the struct field a channel value was loaded from (pkgpath.Type.field), "" if it is not a
+// direct field load.
+func chanFieldKey(v ssa.Value) string {
+	ld, ok := v.(*ssa.UnOp)
+	if !ok || ld.Op != token.MUL {
+		return ""
+	}
+	fa, ok := ld.X.(*ssa.FieldAddr)
+	if !ok {
+		return ""
+	}
+	pt, ok := fa.X.Type().Underlying().(*types.Pointer)
+	if !ok {
+		return ""
+	}
+	n, ok := types.Unalias(pt.Elem()).(*types.Named)
+	if !ok || n.Obj().Pkg() == nil {
+		return ""
+	}
+	st, ok := n.Underlying().(*types.Struct)
+	if !ok {
+		return ""
+	}
+	return n.Obj().Pkg().Path() + "." + n.Obj().Name() + "." + st.Field(fa.Field).Name()
+}
+
+func (t *fnTrans) chanInvTerm(ci *ChanInv, v Term, et types.Type) Term {
+	pkg := t.eng.typesPkg(ci.Pkg)
+	if pkg == nil {
+		pkg = t.fn.Pkg.Pkg
+	}
+	env := &Env{t: t, st: t.cur, old: t.cur, vars: map[string]bound{ci.Param: {Val{T: v}, et}}, pkg: pkg}
+	return env.boolOf(ci.Expr)
+}
+
+// chanInvSend: a send into a channel with a `chaninv` must establish the invariant for the value sent.
+func (t *fnTrans) chanInvSend(ch ssa.Value, v Term, cond Term, pos token.Pos) {
+	ci := t.eng.contracts.ChanInvs[chanFieldKey(ch)]
+	if ci == nil {
+		return
+	}
+	et := ch.Type().Underlying().(*types.Chan).Elem()
+	c := t.chanInvTerm(ci, v, et)
+	if cond != "" {
+		c = fmt.Sprintf("(=> %s %s)", cond, c)
+	}
+	t.usedChanInv[ci.Key] = true
+	t.oblige("chaninv", ci.Short, "value sent into "+ci.Short+" satisfies its channel invariant: "+ci.Src, c, pos)
+}
+
+// chanInvRecv: a value received from such a channel satisfies the invariant (the sweep obligation
+// sweep/chaninv[..] checks that every send is under contract and that the channel is never closed).
+func (t *fnTrans) chanInvRecv(ch ssa.Value, v Term, cond Term) {
+	ci := t.eng.contracts.ChanInvs[chanFieldKey(ch)]
+	if ci == nil {
+		return
+	}
+	et := ch.Type().Underlying().(*types.Chan).Elem()
+	c := t.chanInvTerm(ci, v, et)
+	if cond != "" {
+		c = fmt.Sprintf("(=> %s %s)", cond, c)
+	}
+	t.usedChanInv[ci.Key] = true
+	t.assume(c)
 }
 
 func (t *fnTrans) chanRecv(in *ssa.UnOp) {
@@ -641,9 +708,11 @@ func (t *fnTrans) chanRecv(in *ssa.UnOp) {
 	t.recordRecv(in.X.Type(), t.term(t.val(in.X)), "")
 	if in.CommaOk {
 		ok := t.fresh("recvok", "Bool")
+		t.chanInvRecv(in.X, v, ok)
 		t.setVal(in, Val{Tup: []Val{{T: v}, {T: ok}}})
 		return
 	}
+	t.chanInvRecv(in.X, v, "")
 	t.setVal(in, Val{T: v})
 }
 
@@ -671,16 +740,19 @@ func (t *fnTrans) selectInstr(in *ssa.Select) {
 	for i, s := range in.States {
 		chosen := fmt.Sprintf("(= %s %s)", idx, t.S.intLit(fmt.Sprint(i), tInt))
 		if s.Dir == types.SendOnly {
+			t.chanInvSend(s.Chan, t.term(t.val(s.Send)), chosen, s.Pos)
 			t.recordSend(s.Chan.Type(), t.term(t.val(s.Chan)), t.term(t.val(s.Send)), chosen)
 		} else {
 			t.recordRecv(s.Chan.Type(), t.term(t.val(s.Chan)), chosen)
 		}
 	}
 	tup := []Val{{T: idx}, {T: t.fresh("selrecvok", "Bool")}}
-	for _, s := range in.States {
+	for i, s := range in.States {
 		if s.Dir == types.RecvOnly {
 			et := s.Chan.Type().Underlying().(*types.Chan).Elem()
-			tup = append(tup, Val{T: t.freshVal("selrecv", et)})
+			rv := t.freshVal("selrecv", et)
+			t.chanInvRecv(s.Chan, rv, fmt.Sprintf("(= %s %s)", idx, t.S.intLit(fmt.Sprint(i), tInt)))
+			tup = append(tup, Val{T: rv})
 		}
 	}
 	t.setVal(in, Val{Tup: tup})
